@@ -30,7 +30,7 @@ RULE = ("cases = way of leaving {DISCONNECT, FIN, RST, FIN/RST after every byte 
 ASSUMPTIONS = ["CLIENT_CLOSED is matched to the departed connection by the client address/port it carries",
                "for a client that closed with FIN, a write by the manager before it services the EOF may succeed or fail",
                "harness clients are drained; every surviving connection is writable"]
-REQUIRE = {"ack_copies_at_surviving_logger_checked": 3000, "departures_while_not_writable": 40, "departures": 150, "client_closed_matched": 150, "reconnects_checked": 60, "probe_deliveries_checked": 150,
+REQUIRE = {"acks_into_a_reset_connection": 40, "ack_copies_at_surviving_logger_checked": 3000, "departures_while_not_writable": 40, "departures": 150, "client_closed_matched": 150, "reconnects_checked": 60, "probe_deliveries_checked": 150,
            "timing_pid_tables_checked": 100}
 CASE_TIMEOUT = 60
 T, T2 = 1234, 4321
@@ -245,6 +245,7 @@ def run_case(case, tier):
         if not (sc.crashed or sc.hung):
             rx0 = sc.received()
             n_before = len(rx0["M"]["frames"])
+            case = dict(case, _marks={L: len(r["frames"]) for L, r in rx0.items()})
             sc.run(steps[mark + 1:])
         return judge(sc, case, n_before)
     finally:
@@ -378,6 +379,30 @@ def judge(sc, c, n_before):
             if owed - seen:
                 V.append({"mech": "surviving_logger_missed_ack_copy",
                           "detail": f"logger {G} ({gid}) is owed copies of the acknowledgements addressed to {dict(owed)}; it received copies addressed to {dict(seen)}"})
+    # a departing client whose last complete control frame is answered into a reset connection: the loggers are owed the copy
+    # of that acknowledgement like of any other (counted among what the first surviving logger had received when the departure
+    # was complete, i.e. before the id is used again)
+    for L, idn, name, d in deps:
+        cs = sc.cl[L]
+        if d["way"] == "frame_rst" and d.get("frame", "sub") in ("sub", "resume", "unsub", "pause") and cs.mod_id is not None and not d.get("nw") \
+                and d["stage"] != "logger" and "G" in rx and c.get("_marks"):     # (a departing logger is also owed copies itself: left to C19)
+            g_round = next((rec["n"] for rec in sc.rounds for l2, d2, o2 in rec["frames"] if l2 == "G" and d2["kind"].startswith("hello") and o2 == "ack"), None)
+            if g_round is None:
+                continue
+            # (whether the manager got to read that last frame before the reset is decided by the failure notice about its
+            # acknowledgement: an ACK that could not be written to the requester is reported like any undeliverable message)
+            failed_acks = sum(1 for f in rx["M"]["frames"] if f.msg_type == W.MT_FAILED_MESSAGE and len(f.payload) == 64
+                              and (lambda n: n["dest_mod_id"] == cs.mod_id and n["h_type"] == W.MT_ACK and n["h_dest_mod"] == cs.mod_id)(W.unpack_failed(f.payload)))
+            owed = failed_acks + sum(1 for rec in sc.rounds if rec["n"] > g_round for l2, d2, o2 in rec["frames"]
+                                     if l2 == L and (d2["kind"] in ("sub", "unsub", "pause", "resume") or (d2["kind"].startswith("hello") and o2 == "ack")))
+            if failed_acks:
+                C["acks_into_a_reset_connection"] = C.get("acks_into_a_reset_connection", 0) + failed_acks
+            seen = sum(1 for f in rx["G"]["frames"][:c["_marks"].get("G", 0)] if f.msg_type == W.MT_ACK and f.dest_mod == cs.mod_id)
+            C["ack_copies_for_departing_requester_checked"] = C.get("ack_copies_for_departing_requester_checked", 0) + 1
+            if seen < owed:
+                V.append({"mech": "logger_missed_copy_of_ack_to_departing_requester",
+                          "detail": f"{L} (mod {cs.mod_id}, {d}) was owed {owed} acknowledgements ({failed_acks} of them could not be written to it any more and were reported as such); "
+                                    f"logger G holds {seen} copies addressed to it at the time the departure was complete"})
     # no failure notice may be produced by anything after the departure round
     if n_before is not None:
         later = rx["M"]["frames"][n_before:]
